@@ -22,7 +22,7 @@
 EXTENDS Word, Ring, TLC
 
 CONSTANTS MaxPool,    \* routee indices are 0..MaxPool-1
-          Strategy,   \* "rr" | "random" | "fanout" | "hash"
+          Strategies, \* the strategies explored: subset of {"rr", "random", "fanout", "hash"}
           Keys,       \* routing keys of messages; "-" = no key (hash strategy: random fallback)
           Pools,      \* initial pool sizes
           Presets,    \* the round-robin counter starts at 2^W - k, k \in Presets
@@ -32,7 +32,8 @@ CONSTANTS MaxPool,    \* routee indices are 0..MaxPool-1
 
 Routees == 0..(MaxPool - 1)
 
-VARIABLES map,        \* keys of router.routeesMap (as routee indices)
+VARIABLES strat,      \* router.routingStrategy (fixed per behaviour)
+          map,        \* keys of router.routeesMap (as routee indices)
           alive,      \* routees that are running
           ctr,        \* router.roundRobinNext
           ring,       \* owner function of router.ring (point -> routee)
@@ -42,15 +43,16 @@ VARIABLES map,        \* keys of router.routeesMap (as routee indices)
           own,        \* history: per key, target of the previous keyed message and the live set then
           last        \* last operation and its observable outcome
 
-vars  == <<map, alive, ctr, ring, up, vh, kh, rrPrev, own, last>>
+vars  == <<strat, map, alive, ctr, ring, up, vh, kh, rrPrev, own, last>>
 NoPrev == [r |-> -1, live |-> {}]
 Op(o, r, k, d, to, lost, res) == [op |-> o, r |-> r, key |-> k, d |-> d, to |-> to, lost |-> lost, res |-> res]
 
-Rebuilt(S) == IF Strategy # "hash" THEN {<<>>}
+Rebuilt(S) == IF strat # "hash" THEN {<<>>}
               ELSE IF "RingTie" \in Defects THEN {OwnerLast(o, vh) : o \in SeqsOf(S)}
               ELSE {OwnerMin(S, vh)}
 
-Init == /\ \E n \in Pools : map = 0..(n - 1) /\ alive = 0..(n - 1)
+Init == /\ strat \in Strategies
+        /\ \E n \in Pools : map = 0..(n - 1) /\ alive = 0..(n - 1)
         /\ \E k \in Presets : ctr = Back(k) /\ last = Op("Init", Cardinality(map), "-", k, {}, {}, "")
         /\ vh \in VTabs /\ kh \in KTabs
         /\ ring \in Rebuilt(map)
@@ -102,14 +104,14 @@ Send(k) ==
                /\ last' = Op("Send", -1, k, 0, {}, {}, "noroutees")
           ELSE /\ up' = up
                /\ \E list \in Lists :
-                    CASE Strategy = "rr"     -> SendRR(k, list)
-                      [] Strategy = "random" -> SendRandom(k, list)
-                      [] Strategy = "fanout" -> SendFanOut(k, list)
-                      [] Strategy = "hash"   -> SendHash(k, list, rg)
-  /\ rrPrev' = IF Cardinality(last'.to) = 1 THEN [r |-> Min(last'.to), live |-> alive] ELSE NoPrev
-  /\ own' = IF k = "-" THEN own
+                    CASE strat = "rr"     -> SendRR(k, list)
+                      [] strat = "random" -> SendRandom(k, list)
+                      [] strat = "fanout" -> SendFanOut(k, list)
+                      [] strat = "hash"   -> SendHash(k, list, rg)
+  /\ rrPrev' = IF strat = "rr" /\ Cardinality(last'.to) = 1 THEN [r |-> Min(last'.to), live |-> alive] ELSE NoPrev
+  /\ own' = IF k = "-" \/ strat # "hash" THEN own
             ELSE [own EXCEPT ![k] = IF Cardinality(last'.to) = 1 THEN [r |-> Min(last'.to), live |-> alive] ELSE NoPrev]
-  /\ UNCHANGED <<alive, vh, kh>>
+  /\ UNCHANGED <<strat, alive, vh, kh>>
 
 \* ---- routee life cycle ------------------------------------------------------------------
 \* a routee stops on its own (PoisonPill / ctx.Shutdown / external Shutdown): the router is not told
@@ -117,7 +119,7 @@ Die(r) ==
   /\ r \in alive
   /\ alive' = alive \ {r}
   /\ last' = Op("Die", r, "-", 0, {}, {}, "")
-  /\ UNCHANGED <<map, ctr, ring, up, vh, kh, rrPrev, own>>
+  /\ UNCHANGED <<strat, map, ctr, ring, up, vh, kh, rrPrev, own>>
 
 \* a routee panics: its supervisor escalates, the router gets a PanicSignal and (default directive)
 \* stops the routee, deletes it from the map and rebuilds the ring
@@ -127,7 +129,7 @@ Fail(r) ==
   /\ map' = map \ {r}
   /\ ring' \in Rebuilt(map')
   /\ last' = Op("Fail", r, "-", 0, {}, {}, "")
-  /\ UNCHANGED <<ctr, up, vh, kh, rrPrev, own>>
+  /\ UNCHANGED <<strat, ctr, up, vh, kh, rrPrev, own>>
 
 \* ---- AdjustRouterPoolSize ---------------------------------------------------------------
 \* scaleUp: spawn the children named by the indices len(map) .. len(map)+d-1 (a running child of
@@ -139,7 +141,7 @@ ScaleUp(d) ==
      /\ alive' = alive \cup new
      /\ ring' \in Rebuilt(map')
   /\ last' = Op("Adjust", -1, "-", d, {}, {}, "")
-  /\ UNCHANGED <<ctr, up, vh, kh, rrPrev, own>>
+  /\ UNCHANGED <<strat, ctr, up, vh, kh, rrPrev, own>>
 
 \* scaleDown: availableRoutees, then stop and delete the first d routees of that list
 ScaleDown(d) ==
@@ -152,7 +154,7 @@ ScaleDown(d) ==
             /\ alive' = alive \ gone
             /\ ring' \in Rebuilt(map')
   /\ last' = Op("Adjust", -1, "-", 0 - d, {}, {}, "")
-  /\ UNCHANGED <<ctr, up, vh, kh, rrPrev, own>>
+  /\ UNCHANGED <<strat, ctr, up, vh, kh, rrPrev, own>>
 
 \* GetRoutees: availableRoutees (with its pruning side effect); the reply lists `Listed`
 GetRoutees ==
@@ -160,7 +162,7 @@ GetRoutees ==
   /\ map' = Pruned
   /\ ring' \in RingAfterPrune
   /\ last' = Op("GetRoutees", -1, "-", 0, Listed, {}, "")
-  /\ UNCHANGED <<alive, ctr, up, vh, kh, rrPrev, own>>
+  /\ UNCHANGED <<strat, alive, ctr, up, vh, kh, rrPrev, own>>
 
 Next == \/ \E k \in Keys : Send(k)
         \/ \E r \in Routees : Die(r) \/ Fail(r)
@@ -182,17 +184,17 @@ NoDrop == [][(IsSend /\ up /\ alive # {}) =>
 
 \* round-robin: exactly one target; it is the successor (in the fixed numbering) of the previous
 \* target while the live set is unchanged; a fresh router (counter 0) starts with the first routee
-RoundRobin == [][(IsSend /\ Strategy = "rr" /\ up /\ alive # {}) =>
+RoundRobin == [][(IsSend /\ strat = "rr" /\ up /\ alive # {}) =>
                    /\ Cardinality(last'.to) = 1
                    /\ (rrPrev.r # -1 /\ rrPrev.live = alive) => last'.to = {Succ(alive, rrPrev.r)}
                    /\ (IsZero(ctr) /\ rrPrev.r = -1) => last'.to = {Min(alive)}]_vars
 
 \* fan-out: every live routee, nobody else
-FanOut == [][(IsSend /\ Strategy = "fanout" /\ up) => last'.to = alive]_vars
+FanOut == [][(IsSend /\ strat = "fanout" /\ up) => last'.to = alive]_vars
 
 \* consistent hash: a key stays with its previous routee as long as that routee is alive and no
 \* routee was added since (covers "unchanged membership" and "removal only moves owned keys")
-Sticky == [][(IsSend /\ Strategy = "hash" /\ up /\ last'.key # "-") =>
+Sticky == [][(IsSend /\ strat = "hash" /\ up /\ last'.key # "-") =>
                LET p == own[last'.key] IN
                (p.r # -1 /\ p.r \in alive /\ alive \subseteq p.live) => last'.to = {p.r}]_vars
 
